@@ -7,6 +7,8 @@ CONSTANTS
   MaxFrames = 3
   BufferOversized = FALSE
   NonceReuse = TRUE
+  AllowReconnect = FALSE
+  NoncePerSession = FALSE
   DupDeliver = FALSE
 INVARIANTS C14_FreshNonce
 
